@@ -84,6 +84,12 @@ def checkImage (img : Image) (expected : List (ByteArray × ByteArray × Nat)) :
   let st ← wfImage img
   let kvs ← absImage img
   compareState kvs expected
+  -- the read path mirror (`lookup`, proved equal to `kvGet ∘ absImage` in T16_lookup) on a few keys
+  let probes := (expected.take 1) ++ (expected.drop (expected.length / 2)).take 1 ++ (expected.reverse.take 1)
+  for (k, hsh, n) in probes do
+    match ← lookup img (keyNat k) with
+    | some v => if v.size != n || Blake3.hashAny v != hsh then throw s!"lookup: wrong value for {hexOfBytes k}"
+    | none => throw s!"lookup: committed key {hexOfBytes k} not found through the separators"
   let m ← imageMeta img
   let nrec ← checkSegments img m
   let seed := beNat img.metaF 32 8
